@@ -76,12 +76,12 @@ Lemma tail_nomark e : tail_ev e -> nomark_ev e.
 Proof. destruct e; simpl; tauto. Qed.
 
 (* a scoped call that ran its closure: exactly one closure entry, with every leaf held *)
-Lemma scoped_shape_scan sc t c m w w' :
-  scoped_shape sc t c m w w' -> w_trace w = [] -> (forall l, hc t (w_raw w l) = 0) ->
+Lemma scoped_shape_scan sc t c m body w w' :
+  scoped_shape sc t c m body w w' -> w_trace w = [] -> (forall l, hc t (w_raw w l) = 0) ->
   can_all m (kleaves (shape_of sc c)) (w_raw w) = true -> NoDup (leaves (shape_of sc c)) ->
   closure_scan [] (rev (w_trace w')) (leaves (shape_of sc c)) = (1, true).
 Proof.
-  intros [w1 [w2 [evA [evR [TA [NA [BA [RA [_ [HA [Hraw [F [TR FR]]]]]]]]]]]]] Tw H0 Can ND.
+  intros [w1 [w2 [evA [evR [TA [NA [BA [RA [_ [HA [Hraw [_ [F [TR FR]]]]]]]]]]]]]] Tw H0 Can ND.
   destruct (fr_tr _ _ F) as [U [TU FU]]. cbn [emit w_trace] in TU.
   rewrite TR, TU, TA, Tw, app_nil_r.
   rewrite !rev_app_distr. cbn [rev]. rewrite <- !app_assoc. cbn [app].
@@ -232,8 +232,8 @@ Proof.
               closure_scan [] (rev (w_trace w')) (leaves (shape_of sc c)) =
               match rc with ROk | RPanicked => (1, true) | _ => (0, true) end).
     { intros lent body Hf.
-      assert (IS : is_scoped (AAcquire c m f) = Some (c, m)) by (destruct Hf as [-> | ->]; reflexivity).
-      pose proof (cq_scoped _ _ _ _ _ _ _ CO c m IS) as X. fold rc in X.
+      assert (IS : is_scoped (AAcquire c m f) = Some (c, m, body)) by (destruct Hf as [-> | ->]; reflexivity).
+      pose proof (cq_scoped _ _ _ _ _ _ _ CO c m body IS) as X. fold rc in X.
       assert (Can : (rc = ROk \/ rc = RPanicked) -> can_all m (kleaves (shape_of sc c)) (w_raw w) = true).
       { intros Hrc. destruct (can_all m (kleaves (shape_of sc c)) (w_raw w)) eqn:Cn; [reflexivity|]. exfalso.
         (* a refused acquisition never runs the closure: the scoped_shape would have every leaf taken from a table
@@ -251,8 +251,8 @@ Proof.
       destruct rc eqn:Erc;
         try (destruct X as [evs [T F]]; unfold w in T; cbn [clear_trace w_trace] in T; rewrite app_nil_r in T; rewrite T;
              apply scan_nomark; now apply Forall_rev).
-      - apply (scoped_shape_scan sc t c m w w' X eq_refl H0); [apply Can; now left|now rewrite Hs].
-      - apply (scoped_shape_scan sc t c m w w' X eq_refl H0); [apply Can; now right|now rewrite Hs]. }
+      - apply (scoped_shape_scan sc t c m body w w' X eq_refl H0); [apply Can; now left|now rewrite Hs].
+      - apply (scoped_shape_scan sc t c m body w w' X eq_refl H0); [apply Can; now right|now rewrite Hs]. }
     unfold judge_C04. cbn [co_ret co_evs co_holds co_keyfree]. fold lc rc.
     destruct f as [| |lent body|lent body].
     + (* FGuard *)
